@@ -27,14 +27,17 @@ _G = {}
 
 def _worker(args):
     key, timeout = args
+    facet = None
+    if "@" in key:
+        key, facet = key.split("@", 1)
     try:
         reg, repo = _G["reg"], _G["repo"]
         if key in reg["lemmas"]:
             from pyvc.verify import verify_lemma
             r = verify_lemma(key, reg, repo, timeout_s=timeout)
         else:
-            r = verify_function(key, repo, reg, timeout_s=timeout)
-        return {"key": key, "status": r.status, "reason": r.reason, "groups": r.groups, "outcomes": r.outcomes,
+            r = verify_function(key, repo, reg, timeout_s=timeout, facet=facet)
+        return {"key": key if facet is None else f"{key}@{facet}", "facet": facet, "status": r.status, "reason": r.reason, "groups": r.groups, "outcomes": r.outcomes,
                 "feasible": r.feasible_outcomes, "lib_used": r.lib_used, "time": r.time, "props": r.props}
     except Exception as e:  # noqa: BLE001
         return {"key": key, "status": "crash", "reason": f"{type(e).__name__}: {e}\n{traceback.format_exc()[-1500:]}",
@@ -107,6 +110,9 @@ def main(argv):
     keys = [k for k, c in reg["contracts"].items() if prop in c.props and not c.abstract and not c.trusted]
     keys += [k for k, lm in reg["lemmas"].items() if prop in lm.props]
     keys += derive_override_contracts(reg, repo, prop)
+    # heavy clause groups (facets) are verified in passes of their own: key@facet
+    from pyvc.verify import facets_of
+    keys += [f"{k}@{f}" for k in list(keys) if k in reg["contracts"] for f in facets_of(k, reg)]
     results = run_functions(keys, timeout)
     # property-level analyses (frames / flows / effect traces / lemmas): plug-ins returning the same group format
     extra = []
